@@ -6,7 +6,7 @@ from ._conn_texts import ASSUME, TRUSTED
 
 def fin_and_force(o):
     return conn_oracle.stream_oracle(o, check_fin=True) + [f for f in conn_oracle.updown_oracle(o)
-                                                            if f[0] in ("double-down", "force-no-down", "abort", "leak")]
+                                                            if f[0] in ("double-down", "force-no-down", "abort", "uaf", "leak")]
 
 
 class Prop(ConnProp):
